@@ -6,11 +6,11 @@ src="$1"; prop="$2"; tier="${3:-quick}"
 VROOT="${VROOT:-$(cd "$(dirname "$0")/.." && pwd)}"
 wt="/tmp/seedrepo-$$"
 git -C /repo worktree add -q --detach "$wt" HEAD || exit 2
-cleanup() { git -C /repo worktree remove --force "$wt" >/dev/null 2>&1; }
+cleanup() { git -C /repo worktree remove --force "$wt" >/dev/null 2>&1; rm -rf "/tmp/seedout-$$"; }
 trap cleanup EXIT
 (cd "$wt" && git apply "$src/patch.diff") || { echo "patch does not apply"; exit 2; }
 cd "$VROOT"
-VERIF_REPO="$wt" VERIF_SEED="${VERIF_SEED:-1}" ./check.sh "$prop" "$tier" > "/tmp/try-$prop-$$.log" 2>&1
+VERIF_OUT_DIR="/tmp/seedout-$$" VERIF_REPO="$wt" VERIF_SEED="${VERIF_SEED:-1}" ./check.sh "$prop" "$tier" > "/tmp/try-$prop-$$.log" 2>&1
 rc=$?
 echo "== $(basename $src) $prop $tier exit=$rc"
 grep -E "^(VIOLATION|  |INFRA|KNOWN)" "/tmp/try-$prop-$$.log" | grep -v "  divergence" | cut -c1-400 | head -8
